@@ -220,5 +220,5 @@ def parts():
 
     return [
         Part("chains", check, strategy=case_st(), budget={"quick": 2500, "thorough": 60000}),
-        Part("compositions", check_composition, strategy=G.dag_spec(), budget={"quick": 800, "thorough": 40000}),
+        Part("compositions", check_composition, strategy=G.dag_spec(), budget={"quick": 800, "thorough": 40000}, fuzz={"thorough": 5000}),
     ]
